@@ -303,6 +303,9 @@ func visitInstr(fr *frame, instr ssa.Instruction) continuation {
 		fn, args := prepareCall(fr, &instr.Call)
 		interp := fr.i
 		pos := instr.Pos()
+		if X.cfg != nil && X.cfg.trace {
+			fmt.Fprintf(os.Stderr, "spawn go@%s%s\n", interp.prog.Fset.Position(pos), clipLines(targetStack(fr), 5))
+		}
 		X.sched().spawn(fmt.Sprintf("go@%s", interp.prog.Fset.Position(pos)), func() {
 			call(interp, nil, pos, fn, args)
 		})
